@@ -5,6 +5,7 @@ From Coq Require Import List String Bool Arith Lia.
 From NR Require Import Model.Skeleton Model.Discipline.
 Import ListNotations.
 Open Scope string_scope.
+Open Scope list_scope.
 
 (* ------------------------------------------------------------------ *)
 (* The checker reports every unprotected conflicting pair               *)
@@ -52,7 +53,7 @@ Proof.
     assert (Hex : existsb (unprotected_pair a) (accesses body) = true).
     { apply existsb_exists. exists b. split; [exact Hb|].
       unfold unprotected_pair. rewrite Hva, Hvb, String.eqb_refl, Hia, Hib, Hcl.
-      assert (H1 : negb (a_gor a =? a_gor b) || a_multi a = true).
+      assert (H1 : negb (Nat.eqb (a_gor a) (a_gor b)) || a_multi a = true).
       { destruct Hconc as [Hne | Hm].
         - apply Nat.eqb_neq in Hne. rewrite Hne. reflexivity.
         - rewrite Hm. apply orb_true_r. }
